@@ -66,6 +66,8 @@ type Op struct {
 	Kind  string  `json:"kind"` // entry|exit|trace|callee|whenexit|tick|snap
 	Res   int     `json:"res,omitempty"`
 	Inb   bool    `json:"inb,omitempty"`
+	Dflt  bool    `json:"dflt,omitempty"`  // entry: options whose value is the default are NOT passed (the pooled
+	// EntryOptions must have been reset to the defaults by the previous call, whatever that call set)
 	RType int32   `json:"rtype,omitempty"` // entry: WithResourceType (0 = ResTypeCommon, the default); the model
 	// has no such field: a resource is its NAME, whatever classification a caller gives it
 	Batch uint32  `json:"batch,omitempty"`
@@ -248,9 +250,20 @@ func (c *checkSlot) Check(ctx *base.EntryContext) *base.TokenResult {
 	case "wait":
 		return base.NewTokenResultShouldWait(0)
 	case "panic":
-		if style == 1 {
+		switch (c.s.ID*7 + int(ctx.Input.Flag)) % 3 {
+		case 1:
 			var m map[interface{}]int
 			_ = m[[]int{1}] // runtime panic: hash of unhashable type (what a hotspot rule does with a slice argument)
+		case 2:
+			// the way a built-in slot fails half-way: the block verdict is already written IN PLACE into the
+			// context's pooled result when the slot panics (e.g. while auditing the rejected request).  The
+			// request is passed; whatever the slot left in the pooled result must not survive
+			// (model: CPanic - the verdict of a slot that did not return does not exist)
+			id := c.s.ID
+			if id < 0 {
+				id = -id
+			}
+			ctx.RuleCheckResult.ResetToBlockedWithCause(base.BlockType(1+id%4), msgOf(int64(id%5)), rulePool[id%len(rulePool)], int64(id))
 		}
 		panic("vh: rule check slot panic")
 	case "block":
@@ -518,7 +531,16 @@ func Run(c *Case, clk *vclock.Clock) []Obs {
 			if o.Inb {
 				tt = base.Inbound
 			}
-			opts := []sentinel.EntryOption{sentinel.WithTrafficType(tt), sentinel.WithBatchCount(o.Batch), sentinel.WithFlag(o.Flag)}
+			var opts []sentinel.EntryOption
+			if !o.Dflt || o.Inb {
+				opts = append(opts, sentinel.WithTrafficType(tt))
+			}
+			if !o.Dflt || o.Batch != 1 {
+				opts = append(opts, sentinel.WithBatchCount(o.Batch))
+			}
+			if !o.Dflt || o.Flag != 0 {
+				opts = append(opts, sentinel.WithFlag(o.Flag))
+			}
 			if o.RType != 0 {
 				opts = append(opts, sentinel.WithResourceType(base.ResourceType(o.RType)))
 			}
@@ -958,6 +980,7 @@ func Gen(r *rng.R, id int, prof Profile) *Case {
 				// one resource NAME entered with different option sets while entries are in flight: the
 				// classification varies per call (a web adapter and hand-written code sharing a name)
 				o.RType = int32(r.PickI(0, 0, 0, 1, 2, 3, 6))
+				o.Dflt = r.Chance(1, 2) // default-valued options left out: a call with default options after one with others
 				if na > 0 && r.Chance(1, 5) {
 					o.Args[r.Intn(na)] = Unhashable
 				}
@@ -989,8 +1012,8 @@ func Gen(r *rng.R, id int, prof Profile) *Case {
 			hb := "ok"
 			if r.Chance(1, 4) {
 				hb = "err"
-			} else if prof == ProfC16 && r.Chance(1, 3) {
-				hb = "panic"
+			} else if r.Chance(1, 3) {
+				hb = "panic" // recovered per handler (a9e6cc9): also within C01's histories now
 			}
 			hid++
 			c.Ops = append(c.Ops, Op{Kind: "whenexit", E: r.Intn(nent), HID: hid, HB: hb})
